@@ -2,7 +2,7 @@ import OmbottModel.Py
 import OmbottModel.Model.Router
 import OmbottModel.Model.RouterSpec
 import OmbottModel.Gen.Routeurl
-import OmbottModel.Gen.Pyint
+import OmbottModel.Py.IntLim
 /-!
 Executable model of URL building (`ombott/router/radirouter.py: Route.url`,
 `ombott/router/filter_factory.py`: the formatters of the `int`/`float` filters) and the small
@@ -58,9 +58,15 @@ def isIntFid (f : Fid) : Bool := fidName f == "int".toList
 /-- the filter environment with the `int` handler computed by the model instead of shipped -/
 def withInt (env : FilterEnv) : FilterEnv := fun f s => if isIntFid f then intFilter s else env f s
 
-/-- `lambda x: str(int(x))` on a value that is an `int` (as shipped: `int:<repr>`) -/
+/-- `lambda x: str(int(x))` on a value that is an `int` (as shipped: `int:<repr>`) of at most
+`Gen.intMaxStrDigits` digits; `str` of a longer one raises `ValueError` (`none`: the real formatter's
+answer is looked up in `FormatEnv`).  Values obtained by matching are never that long
+(`intFilter_spec_lim`). -/
 def intFmt : Val → Option Str
-  | .conv r => if "int:".toList.isPrefixOf r then some (r.drop 4) else none
+  | .conv r =>
+    if "int:".toList.isPrefixOf r then
+      (if Gen.intMaxStrDigits < intDigitCount (r.drop 4) then none else some (r.drop 4))
+    else none
   | .str _ => none
 
 /-! ## 2. output formatters, sanity check -/
